@@ -2199,6 +2199,45 @@ Proof.
     pose proof (freespace_rows_nondegenerate _ _ _ Hs). unfold proper. lia.
 Qed.
 
+(* ------------------------------------------------------------------ the two cases of fromIspdCircuit (repair of finding F28) *)
+
+Lemma grid_of_circuit_nonempty bs margin rows cells :
+  clip_rows margin (map rr (compute_rows_circuit rows [] cells)) <> [] ->
+  grid_of_circuit bs margin rows cells = make_grid bs (clip_rows margin (map rr (compute_rows_circuit rows [] cells))).
+Proof.
+  intros Hne. unfold grid_of_circuit. cbv zeta.
+  destruct (clip_rows margin (map rr (compute_rows_circuit rows [] cells))) eqn:E; [congruence|].
+  unfold grid_of_rows. rewrite E. reflexivity.
+Qed.
+
+Lemma grid_of_circuit_empty bs margin rows cells :
+  clip_rows margin (map rr (compute_rows_circuit rows [] cells)) = [] ->
+  grid_of_circuit bs margin rows cells = make_grid_area bs (placement_area (map rr rows)).
+Proof. intros E. unfold grid_of_circuit. cbv zeta. rewrite E. reflexivity. Qed.
+
+(* the grid over a rectangle with all capacities reset: the limits of make_grid bs [a], capacity 0 in every bin *)
+Lemma make_grid_area_limits bs a :
+  limX (make_grid_area bs a) = limX (make_grid bs [a]) /\ limY (make_grid_area bs a) = limY (make_grid bs [a]).
+Proof. split; reflexivity. Qed.
+
+Lemma make_grid_area_cap bs a i j px py :
+  nth_error (pairs (limX (make_grid_area bs a))) i = Some px -> nth_error (pairs (limY (make_grid_area bs a))) j = Some py ->
+  nth_error2 (gcap (make_grid_area bs a)) i j = Some 0.
+Proof.
+  intros Hx Hy. unfold make_grid_area, with_capacity in *. cbn [limX limY gcap] in *.
+  rewrite bin_capacity_spec. rewrite (nth_error2_capF _ _ _ i j px py Hx Hy). reflexivity.
+Qed.
+
+Lemma make_grid_area_total bs a : total_capacity (make_grid_area bs a) = 0.
+Proof.
+  unfold total_capacity, make_grid_area, with_capacity. cbn [gcap]. rewrite bin_capacity_spec. unfold capF.
+  rewrite map_map. cbn [map sumZ]. rewrite (sumZ_map_ext _ (fun _ => 0)); [apply sumZ_map_const0|].
+  intros x _. cbv beta. apply sumZ_map_const0.
+Qed.
+
+Lemma count_sites_nil b : count_sites (covered []) b = 0.
+Proof. rewrite <- (region_area_counts_sites [] b); [reflexivity|constructor|exact I]. Qed.
+
 (* C16's first clause for a circuit: the capacity of a bin is the number of unit sites of the bin that lie
    in a free row segment (rows minus fixed obstructions, C15) at least `margin` away from its two ends *)
 Theorem circuit_bin_capacity_counts_free_sites bs margin rows cells i j px py :
@@ -2209,9 +2248,73 @@ Theorem circuit_bin_capacity_counts_free_sites bs margin rows cells i j px py :
   nth_error2 (gcap g) i j = Some (count_sites (covered (clip_rows margin segs)) (bin_region px py)).
 Proof.
   intros Hm Hd segs g Hx Hy.
-  destruct (free_rows_disjoint rows (obstacles_of [] (map (fun c : Z * Z * Z * Z * Orient.orient * bool * bool =>
-      match c with (x, y, w, h, o, fx, ob) => (cell_placement x y w h o, fx, ob) end) cells)) Hd) as [D P].
-  apply bin_capacity_counts_free_sites; auto.
-  - apply clip_rows_proper; auto.
-  - apply clip_rows_disjoint; auto.
+  destruct (clip_rows margin segs) as [|c0 t] eqn:E.
+  - (* no free row segment survives the clipping (finding F28): every bin has capacity 0 = no free site *)
+    unfold g in *. rewrite (grid_of_circuit_empty bs margin rows cells E) in *.
+    rewrite (make_grid_area_cap bs _ i j px py Hx Hy). f_equal. symmetry. apply count_sites_nil.
+  - assert (Hne : clip_rows margin segs <> []) by (rewrite E; discriminate).
+    unfold g in *. rewrite (grid_of_circuit_nonempty bs margin rows cells Hne) in *. fold segs in Hx, Hy |- *.
+    rewrite <- E.
+    destruct (free_rows_disjoint rows (obstacles_of [] (map (fun c : Z * Z * Z * Z * Orient.orient * bool * bool =>
+        match c with (x, y, w, h, o, fx, ob) => (cell_placement x y w h o, fx, ob) end) cells)) Hd) as [D P].
+    apply bin_capacity_counts_free_sites; auto.
+    + apply clip_rows_proper; auto.
+    + apply clip_rows_disjoint; auto.
+Qed.
+
+(* ------------------------------------------------------------------ a circuit without free space (finding F28) *)
+
+(* [F] repaired fromIspdCircuit: when no free row segment survives the clipping the grid has the limits of the grid over
+   the bounding box R of the circuit's rows, and every bin has capacity 0 *)
+Theorem circuit_grid_without_free_space bs margin rows cells :
+  clip_rows margin (map rr (compute_rows_circuit rows [] cells)) = [] ->
+  let g := grid_of_circuit bs margin rows cells in
+  let R := placement_area (map rr rows) in
+  limX g = limX (make_grid bs [R]) /\ limY g = limY (make_grid bs [R]) /\
+  total_capacity g = 0 /\
+  (forall i j px py, nth_error (pairs (limX g)) i = Some px -> nth_error (pairs (limY g)) j = Some py ->
+     nth_error2 (gcap g) i j = Some 0).
+Proof.
+  intros E g R. unfold g. rewrite (grid_of_circuit_empty bs margin rows cells E). fold R.
+  split; [reflexivity|]. split; [reflexivity|]. split; [apply make_grid_area_total|].
+  intros i j px py Hx Hy. eapply make_grid_area_cap; eauto.
+Qed.
+
+(* [F] ... and these limits tile R: from min to max, sorted, strictly when the bin size is >= 1 and R has extent *)
+Theorem circuit_grid_without_free_space_tile bs margin rows cells : Forall proper (map rr rows) ->
+  clip_rows margin (map rr (compute_rows_circuit rows [] cells)) = [] ->
+  let g := grid_of_circuit bs margin rows cells in
+  let R := placement_area (map rr rows) in
+  (hdZ (limX g) = minX R /\ lastZ (limX g) = maxX R /\ chainZ (limX g) /\ (1 <= bs -> 1 <= rwidth R -> schainZ (limX g))) /\
+  (hdZ (limY g) = minY R /\ lastZ (limY g) = maxY R /\ chainZ (limY g) /\ (1 <= bs -> 1 <= rheight R -> schainZ (limY g))).
+Proof.
+  intros Hp E g R. destruct (circuit_grid_without_free_space bs margin rows cells E) as (Lx & Ly & _).
+  fold g R in Lx, Ly. rewrite Lx, Ly.
+  assert (PR : Forall proper [R]).
+  { constructor; [|constructor]. destruct (placement_area_proper (map rr rows) Hp). split; assumption. }
+  exact (grid_limits_tile bs [R] PR).
+Qed.
+
+(* [F] the hierarchy of views exists and is well formed for the grid of EVERY circuit (with or without free space),
+   so that partition_invariant applies to it *)
+Theorem circuit_grid_hierarchy_exists bs margin rows cells :
+  exists h, make_hier (grid_of_circuit bs margin rows cells) = Some h /\
+            hgrid h = grid_of_circuit bs margin rows cells /\ hier_wf h.
+Proof.
+  destruct (clip_rows margin (map rr (compute_rows_circuit rows [] cells))) as [|c0 t] eqn:E.
+  - rewrite (grid_of_circuit_empty bs margin rows cells E).
+    destruct (make_grid_lengths bs [placement_area (map rr rows)]) as [Lx Ly].
+    apply make_hier_wf; assumption.
+  - assert (Hne : clip_rows margin (map rr (compute_rows_circuit rows [] cells)) <> []) by (rewrite E; discriminate).
+    rewrite (grid_of_circuit_nonempty bs margin rows cells Hne). apply grid_hierarchy_exists.
+Qed.
+
+(* [F] every history on the grid of every circuit (with or without free space) keeps the partition invariant *)
+Theorem circuit_partition_invariant bs margin rows cells d ops h s' :
+  make_hier (grid_of_circuit bs margin rows cells) = Some h ->
+  run_ops h (length d) (init_state h d) ops = Some s' -> inv h d s' /\ partition_okb h d s' = true.
+Proof.
+  intros Hh Hr. destruct (circuit_grid_hierarchy_exists bs margin rows cells) as (h' & E & _ & Hwf).
+  rewrite Hh in E. inversion E. subst h'.
+  assert (I : inv h d s') by (eapply partition_invariant; eauto). split; auto. apply partition_okb_correct. exact I.
 Qed.
